@@ -395,6 +395,18 @@ def _impl_thr(case):
                 d = {"g": [float(o1[2]), float(o2[2])], "first_pixel": df[0].tolist() if df.size else None}
             out.setdefault("ni_detail", {})[p] = d
     out["ni"] = ni
+    # a mask that selects every pixel and no mask at all describe the same data
+    if mask is None or bool(np.all(inmask)):
+        other = np.ones(img.shape, bool) if mask is None else None
+
+        def call_other():
+            k = dict(mask=_layout(other, lay), threshold_range_min=lo, threshold_range_max=hi,
+                     threshold_correction_factor=cf, adaptive_window_size=window)
+            if labels is not None:
+                k["labels"] = _layout(labels, lay)
+            k.update(kw)
+            return T.get_threshold(method, mod, _layout(img, lay), **k)
+        out["mask_none_equiv"] = _same_outcome(o1, _outcome(call_other))
     if o1[0] == "exc":
         out["raised"] = o1[1]
         return out
@@ -669,6 +681,27 @@ def compare(case, out, m):
 
 # ------------------------------------------------------------------ the property on the implementation's output
 
+def _strip(c):
+    return {k: v for k, v in c.items() if k != "again_of"}
+
+
+def _fresh_replay(ctx, cases, outs, res):
+    """S4 history independence: the cases that were run twice in the main process are run once more in a
+    FRESH process, in reverse order; the three observations of each must coincide."""
+    ks = [k for k, c in enumerate(cases) if c["fn"] == "thr" and "again_of" in c and c["again_of"] < k
+          and _strip(cases[c["again_of"]]) == _strip(c)]
+    if not ks:
+        return
+    sub = [_strip(cases[k]) for k in reversed(ks)]
+    fresh = ctx.run_impl(sub)
+    ctx.count("thr:fresh_process_replay", len(sub))
+    for k, o2 in zip(reversed(ks), fresh):
+        j = cases[k]["again_of"]
+        if res[k] is None and res[j] is None and json.dumps(o2, sort_keys=True) != json.dumps(outs[j], sort_keys=True):
+            res[j] = ("S4 history dependence: the same call gives a different result in a fresh process "
+                      "(here %s, fresh %s)" % (str(outs[j].get("g")), str(o2.get("g") if isinstance(o2, dict) else o2)))
+
+
 def check(ctx, cases, outs):
     res = [None] * len(cases)
     ci, args = [], []
@@ -691,9 +724,13 @@ def check(ctx, cases, outs):
             if not o["det"]:
                 res[k] = "S4 determinism: two identical calls returned different thresholds"
                 continue
-            if "again_of" in c and json.dumps(o, sort_keys=True) != json.dumps(outs[c["again_of"]], sort_keys=True):
+            if ("again_of" in c and c["again_of"] < k and _strip(cases[c["again_of"]]) == _strip(c)
+                    and json.dumps(o, sort_keys=True) != json.dumps(outs[c["again_of"]], sort_keys=True)):
                 res[k] = ("S4 history dependence: the same call gave a different result later in the same process "
                           "(first %s, later %s)" % (str(outs[c["again_of"]].get("g")), str(o.get("g"))))
+                continue
+            if o.get("mask_none_equiv") is False:
+                res[k] = "S1: mask=None and a mask selecting every pixel give different results"
                 continue
             badp = [p for p, ok in o["ni"].items() if not ok]
             if badp:
@@ -749,6 +786,7 @@ def check(ctx, cases, outs):
                         ctx.count("%s_raised_%s" % (name, o[name]["skipped"]))
                     elif not o[name]["perm"] or not o[name]["nan"]:
                         res[k] = "S6 %s is not invariant under permutation / NaN insertion" % name
+    _fresh_replay(ctx, cases, outs, res)
     for k, r in zip(ci, ctx.run_model("entry_check", args)):
         if r != 1:
             c, o = cases[k], outs[k]
